@@ -150,7 +150,7 @@ def many_boxes_case(seed):
                    nboxes=[n], nfiles=[2], n0=pf.n0, case='many boxes in one file')
     base = diskimg.image_of(pf)
     out['dist'][f'case=many boxes in one file ({n} boxes)'] = 1
-    ops = [diskimg.op_nudge_offset, diskimg.op_nudge_offset, diskimg.op_nudge_offset, diskimg.op_bad_offset, diskimg.op_shift_fab_indices, diskimg.op_alter_shape, diskimg.op_dup_offset,
+    ops = [diskimg.op_offset_into_data, diskimg.op_offset_into_data, diskimg.op_offset_into_data, diskimg.op_bad_offset, diskimg.op_shift_fab_indices, diskimg.op_alter_shape, diskimg.op_dup_offset,
            diskimg.op_swap_offsets]
     for i in range(14):
         img, descs = diskimg.corrupt(base, rng, 0, ops, 1)
